@@ -6,7 +6,9 @@ META = {
               'parameter formula, secret export = that + the two key sections; no fwrite source range of the cloud export intersects the LWE key '
               'storage; non-interference (both secrets replaced by other arbitrary values, identical cloud bytes); the cloud stream imports cleanly alone. '
               'h_export_api: the EXPORTed FILE*/std::stream functions, called in the sequence secret key set, cloud key set, parameter set, LWE key, cloud key set again, '
-              'produce exactly the bytes of the generic-stream level each time (no state carried between exports) and the exported importers read them back.',
+              'produce exactly the bytes of the generic-stream level each time (no state carried between exports) and the exported importers read them back. '
+              'keygen.*: the key-generation queries of C08 (recording RNG stub): in a generated key-switching key the unused h = 0 column is the trivial '
+              'zero sample and every other row is one noisy encryption with fresh full-range masks - no row is a noiseless equation in the secret key.',
     'outside': 'A3; "in any of the encodings the library uses": the library has one binary encoding per section, the check is on source address ranges '
                'and on non-interference rather than on substring search; dimensions.',
     'assumptions': ['A1', 'A2', A3],
@@ -19,6 +21,14 @@ def queries(tier, seed):
         out.append(Q('C17.h_cloud_public.%s' % ('cxx' if cxx else 'cfile'), 'h_cloud_public', {'CXX': cxx}, validate=(cxx == 1)))
     for cxx in (1, 0):
         out.append(Q('C17.h_export_api.%s' % ('cxx' if cxx else 'cfile'), 'h_export_api', {'CXX': cxx}, validate=True, mdefs=dict(double_format()[1], IO_CAP=1024), unwind=1030))
+    # what is exported must itself be public: a *generated* key-switching key has the trivial zero sample in its unused h = 0 column and one
+    # noisy encryption per other row (a noiseless row b = <a,s> would hand out the LWE key): the key-generation queries of C08
+    import importlib
+    for q in importlib.import_module('C08').queries('quick', seed):
+        if 'h_ks_create' in q.key and q.expect == 'pass':
+            q.key = 'C17.keygen.' + q.key
+            q.validate = False
+            out.append(q)
     out.append(Q('C17.canary.h_export_api', 'h_export_api', {'CXX': 0, 'CANARY': 1}, expect='fail', witness=False, mdefs=dict(double_format()[1], IO_CAP=1024), unwind=1030))
     out.append(Q('C17.canary.h_cloud_public', 'h_cloud_public', {'CXX': 1, 'CANARY': 1}, expect='fail', witness=False))
     return out
